@@ -25,7 +25,7 @@ func c16FuzzSetup() {
 	if err != nil {
 		return
 	}
-	r := &c16Runner{opts: opts, m: cl.live()[0], col: vcommon.NewCollector("C16", "fuzz"), part: "rapid", hungCmds: map[string]bool{}, classes: map[string]bool{}}
+	r := &c16Runner{opts: opts, m: cl.live()[0], all: cl.live(), col: vcommon.NewCollector("C16", "fuzz"), part: "rapid", hungCmds: map[string]bool{}, classes: map[string]bool{}}
 	r.startWorker()
 	rawEntry, move, route, coord := c16Payloads(r.m)
 	c16FuzzValid = c16ValidCommands(rawEntry, move, route, coord)
